@@ -206,7 +206,8 @@ def _missing_reverse_relation(lex: lmf.Lexicon, ids: _Ids) -> _Result:
                for s, r in _sense_relations(lex)
                if r['target'] in ids['sense']}
     regular.update((ss['id'], r['relType'], r['target'])
-                   for ss, r in _synset_relations(lex))
+                   for ss, r in _synset_relations(lex)
+                   if r['target'] in ids['synset'])
     return {tgt: {'type': REVERSE_RELATIONS[typ], 'target': src}
             for src, typ, tgt in sorted(regular)
             if typ in REVERSE_RELATIONS
